@@ -299,8 +299,109 @@ fn free_run<A: Alloc>(iters: u32, seed: u64) -> Vec<(String, String)> {
     viol
 }
 
+fn filter_pool(tag: &str) -> bool { tag.starts_with("am.") || tag.starts_with("fs.") || tag.starts_with("sync.") || tag.starts_with("pa.") }
+
+/// `sub=pool` (C13): the bare pool allocator at the finest granularity — every access of the free-list ring is a yield point; 2-3 threads
+/// allocate and free slots of a pool of 2 or 4.  Oracles: no slot with two owners; a failed allocation is wrong iff at EVERY instant of the
+/// call the pool had a slot that no completed-or-later-successful allocation could have taken (pool size + deallocations RETURNED so far
+/// exceeds the successful allocations CALLED so far) — the exact reading of "fails only if all were outstanding at some instant of the call".
+fn run_pool<A: Alloc, const N: usize>(seed: u64, replay: Option<Vec<u8>>) -> (sched::Outcome, Vec<(String, String)>, String) {
+    for d in DROPS.iter() { d.store(0, SeqCst); }
+    let alloc: &'static A = Box::leak(Box::new(A::new()));
+    let mut rng = Rng::new(seed ^ 0x9001);
+    let nt = rng.range(2, 3) as usize;
+    // (is_alloc, call line, return line, success)
+    let spans: Arc<Mutex<Vec<(bool, usize, usize, bool)>>> = Arc::new(Mutex::new(vec![]));
+    let owned: Arc<Mutex<Vec<u32>>> = Arc::new(Mutex::new(vec![]));
+    let viols: Arc<Mutex<Vec<(String, String)>>> = Arc::new(Mutex::new(vec![]));
+    let mut bodies: Vec<Body> = vec![];
+    for t in 0..nt {
+        let nops = rng.range(3, 9) as usize;
+        let mut orng = Rng::new(seed.wrapping_mul(131).wrapping_add(t as u64));
+        let (spans, owned, viols) = (spans.clone(), owned.clone(), viols.clone());
+        bodies.push(Box::new(move |ctx| {
+            let me = ctx.tid();
+            let mut mine: Vec<OgreUnique<Tracked, A>> = vec![];
+            for _ in 0..nops {
+                if mine.is_empty() || orng.chance(3, 5) {
+                    let v = 100 * (me as u32 + 1) + mine.len() as u32;
+                    let c = ctx.call(me, &format!("newunique {v}"));
+                    let u = OgreUnique::new(|slot: &mut Tracked| unsafe { std::ptr::write(slot, Tracked { v }) }, alloc);
+                    match u {
+                        Some(u) => {
+                            let id = alloc.id_from_ref(&*u);
+                            { let mut o = owned.lock().unwrap(); if o.contains(&id) { viols.lock().unwrap().push(("slot_two_owners".into(), format!("slot {id} was handed out while another handle owns it"))); } o.push(id); }
+                            mine.push(u);
+                            let r = ctx.ret(&format!("unique {id}"));
+                            spans.lock().unwrap().push((true, c, r, true));
+                        }
+                        None => { let r = ctx.ret("none"); spans.lock().unwrap().push((true, c, r, false)); }
+                    }
+                } else {
+                    let k = orng.below(mine.len() as u64) as usize;
+                    let u = mine.remove(k);
+                    let id = alloc.id_from_ref(&*u);
+                    let c = ctx.call(me, &format!("dropunique {id}"));
+                    { let mut o = owned.lock().unwrap(); o.retain(|x| *x != id); }
+                    drop(u);
+                    let r = ctx.ret("unit");
+                    spans.lock().unwrap().push((false, c, r, true));
+                }
+            }
+            for u in mine { let id = alloc.id_from_ref(&*u); let c = ctx.call(me, &format!("dropunique {id}")); owned.lock().unwrap().retain(|x| *x != id); drop(u); let r = ctx.ret("unit"); spans.lock().unwrap().push((false, c, r, true)); }
+        }));
+    }
+    let mut cfg = Config::new(seed, filter_pool);
+    cfg.replay = replay;
+    let outcome = sched::run(cfg, bodies);
+    let mut viol = std::mem::take(&mut *viols.lock().unwrap());
+    if outcome.verdict != Verdict::Completed { viol.push(("no_progress".into(), format!("run ended with verdict {:?}", outcome.verdict))); }
+    for (i, p) in outcome.panics.iter().enumerate() { if let Some(m) = p { viol.push(("panic".into(), format!("thread {i} panicked: {}", &m[..m.len().min(200)]))); } }
+    let sp = spans.lock().unwrap().clone();
+    for &(is_alloc, c, r, ok) in sp.iter() {
+        if !is_alloc || ok { continue }
+        // free(p) = N + deallocations returned at or before line p - successful allocations called at or before line p
+        let always_free = (c..=r).all(|p| {
+            let deallocs = sp.iter().filter(|x| !x.0 && x.2 <= p).count();
+            let allocs = sp.iter().filter(|x| x.0 && x.3 && x.1 <= p).count();
+            N + deallocs > allocs
+        });
+        if always_free { viol.push(("exhausted_while_free".into(), format!("the allocation of lines {c}..{r} failed although at every instant of the call the pool of {N} had a slot that no allocation had taken or could have taken (deallocations returned vs successful allocations called)"))); }
+    }
+    if outcome.verdict == Verdict::Completed {
+        let dbg = format!("{:?}", alloc);
+        if !dbg.contains(&format!("free_slots_count: {N}")) { viol.push(("pool_not_full".into(), format!("allocator reports {dbg} after everything was released"))); }
+    }
+    (outcome, viol, format!("pool/N{N}/t{nt}"))
+}
+
 fn main() {
     let a = Args::parse();
+    if a.get("sub", "") == "pool" {
+        let seed0 = a.num("seed", 1);
+        let kind = a.get("kind", "atomic");
+        let mut rep = Report::new(&format!("handles/pool/{kind}"));
+        let single = a.kv.get("choices").map(|c| parse_choices(c));
+        for i in 0..a.num("runs", 100) {
+            let seed = if a.kv.contains_key("seedx") { a.num("seedx", 0) } else { seed0.wrapping_mul(1_000_003).wrapping_add(i) };
+            mark_run(seed);
+            let (o, viol, cfgkey) = match (kind.as_str(), seed % 2) {
+                ("atomic", 0) => run_pool::<AllocatorAtomicArray<Tracked, 2>, 2>(seed, single.clone()),
+                ("atomic", _) => run_pool::<AllocatorAtomicArray<Tracked, 4>, 4>(seed, single.clone()),
+                (_, 0) => run_pool::<AllocatorFullSyncArray<Tracked, 2>, 2>(seed, single.clone()),
+                (_, _) => run_pool::<AllocatorFullSyncArray<Tracked, 4>, 4>(seed, single.clone()),
+            };
+            let nontrivial = o.trace.iter().any(|l| l.starts_with("ret") && l.ends_with(" none"));
+            rep.add_run(&o.trace, nontrivial, &format!("{kind}/{cfgkey}"), &format!("{:?}", o.verdict));
+            for (k, d) in viol {
+                let header = vec![format!("cmd handles sub=pool kind={kind} runs=1 seedx={seed} choices={}", choices_str(&o.choices)), format!("violation {k}: {d}")];
+                let path = write_replay(&a.get("replay_dir", ""), &format!("{}-handles-pool-{kind}-seed{seed}-{k}", a.get("prop", "C")), &header, &o.trace);
+                rep.violations.push(Violation { run: i, seed, kind: k, detail: d, replay: path });
+            }
+        }
+        rep.print();
+        return
+    }
     if a.get("sub", "") == "freerun" {
         let mut rep = Report::new("handles/freerun");
         let iters = a.num("runs", 3000) as u32;
